@@ -8,7 +8,7 @@ M = {
  'C03_s2': ('C03', 'hinted findSegment clamps an out-of-range hint but never writes it back on the same-segment fast path', 'hint < 0 with t in the first piece, or hint >= N with t in the last piece: value right, hint left out of range', ['C03'], ''),
  'C04_s1': ('C04', 'cubic getEnergy vectorised with strided Eigen::Map views whose stride is wrong for the column-major 1-D layout', 'CubicSplineND<1> with N >= 2', ['C04'], 'initially the check could not BUILD this change (Eigen::ArrayXd not covered by the scalar substitution): symx/pre.hpp now redirects all Eigen double typedefs'),
  'C04_s2': ('C04', 'septic getEnergy memoised; cache invalidated in update(durations) only', 'septic: getEnergy(), then update(time points), then getEnergy() again', ['C04', 'C10'], ''),
- 'C05_s1': ('C05', 'septic propagateGrad, DIM > 3 branch: sign of the position term of d r4/d h_R flipped by a hoisting refactor', 'septic, DIM >= 4, N >= 2; only the time gradients are wrong', ['C05', 'C13'], ''),
+ 'C05_s1': ('C05', 'septic propagateGrad, DIM > 3 branch: sign of the position term of d r4/d h_R flipped by a hoisting refactor', 'septic, DIM >= 4, N >= 2; only the time gradients are wrong', ['C05'], ''),
  'C05_s2': ('C05', 'quintic propagateGrad: guard clause returns before the boundary v/a gradients are written when there is no interior block', 'quintic, exactly N == 1', ['C05'], ''),
  'C06_s1': ('C06', 'septic propagateGrad DIM > 3 branch: dP taken from point_diffs_ (opposite sign convention)', 'septic, DIM >= 4; propagated time gradient only', ['C06'], ''),
  'C06_s2': ('C06', 'quintic getEnergyPartialGradByCoeffs(ref): resize+setZero only when the row count differs', 'reference overload with a caller buffer of the right size holding non-zero c0..c2 rows', ['C06'], ''),
@@ -17,22 +17,22 @@ M = {
  'C08_s1': ('C08', 'segment start times via std::partial_sum that restarts from the first duration (start time lost for segments >= 1)', 'non-zero start time and N >= 2; cost and gradient stay mutually consistent', ['C08'], ''),
  'C08_s2': ('C08', 'waypoint cost block skipped when spatial_layout_ is empty', 'N == 1, start_p and end_p both false, 3-cost overload', ['C08'], 'first run hit a KeyError in the check (missing functor-argument outs): now reported as a violation'),
  'C09_s1': ('C09', 'setOptimizationFlags marks the layout dirty only when start_p/end_p changed', 'layout-building query, then flags with other derivative blocks but same endpoint flags, then another query', ['C09'], 'reported through a crash replay (heap corruption in generateInitialGuess) in the history task'),
- 'C09_s2': ('C09', 'evaluate skips the spatial decode / gradient loops when there are no inner waypoints', 'N == 1 with start_p and/or end_p flagged', ['C09', 'C07'], ''),
+ 'C09_s2': ('C09', 'evaluate skips the spatial decode / gradient loops when there are no inner waypoints', 'N == 1 with start_p and/or end_p flagged', ['C09'], ''),
  'C10_s1': ('C10', 'cubic: cached tridiagonal factorisation reused unless times_dirty_, which the time-point update overload never sets', 'initialised cubic, then update(time points) with the same segment count and other breakpoints', ['C10'], ''),
  'C10_s2': ('C10', 'Workspace::resize returns whether it reallocated; cache_waypoints = ref_waypoints_ only then', 'explicit workspace reused at the same N for another problem / other flags / another optimizer', ['C10'], ''),
  'C11_s1': ('C11', 'dynamic derivative-factor table flattened with stride num_coeffs_ and kept across updates when large enough', 'dynamic-order PPolyND, > 8 coefficients, table built, then update to a SMALLER count still > 8 (12 -> 10)', ['C11'], 'initially MISSED (no history moved between two counts above 8): second other-coefficient-count operation added to the alphabet'),
  'C11_s2': ('C11', 'user-defined copy assignment copies the derivative caches only when the source has them and never resets the destination flags', 'destination already evaluated, source never evaluated, dst = src', ['C11'], ''),
  'C12_s1': ('C12', 'segment start time carried in a captured running variable inside the per-segment lambda', 'executor order other than 0..N-1, N >= 2, running cost that reads global time', ['C12'], 'initially MISSED (oracle outputs do not depend on their arguments): the check now compares every functor ARGUMENT across schedules'),
  'C12_s2': ('C12', 'integral-pass scratch buffers moved from the Workspace into a mutable member of the optimizer', 'two evaluations overlapping in time on one optimizer with private workspaces', ['C12'], 'caught by the nesting executor (second evaluation between two segment tasks)'),
- 'C13_s1': ('C13', 'septic DIM > 3 propagateGrad: rhs1_R sign flipped by hoisting dP_R', 'septic, D >= 4, N >= 2; times output only', ['C13', 'C05'], ''),
+ 'C13_s1': ('C13', 'septic DIM > 3 propagateGrad: rhs1_R sign flipped by hoisting dP_R', 'septic, D >= 4, N >= 2; times output only', ['C13'], ''),
  'C13_s2': ('C13', 'cubic propagateGrad: early continue when the waypoint difference row isZero() also skips duration terms', 'two consecutive waypoints equal in every coordinate of the spline instance (1-D spline of a held coordinate) while the D-dim row is non-zero', ['C13'], 'initially only flagged as an unexplored data-dependent branch (UNCONFIRMED): the coverage loop for alternative paths now reaches the violating region and replays it'),
- 'C14_s1': ('C14', 'same change as C02_s1 (quintic N == 2 end boundary term)', 'N == 2, non-zero end state: breaks time reversal', ['C14', 'C02'], ''),
- 'C14_s2': ('C14', 'septic updateCumulativeTimes accumulates elapsed time from 0 instead of the start time', 'septic with non-zero start time', ['C14', 'C01'], ''),
+ 'C14_s1': ('C14', 'same change as C02_s1 (quintic N == 2 end boundary term)', 'N == 2, non-zero end state: breaks time reversal', ['C14'], ''),
+ 'C14_s2': ('C14', 'septic updateCumulativeTimes accumulates elapsed time from 0 instead of the start time', 'septic with non-zero start time', ['C14'], ''),
  'C15_s1': ('C15', 'copy constructor compares other.active_time_map_ with its OWN default map address', 'copy construction, source on its default time map, then source re-assigned or destroyed; stateful map type', ['C15'], ''),
  'C15_s2': ('C15', 'copy assignment copies default_spatial_map_ only when the source is using it', 'assignment from a source with a user spatial map over an optimizer whose default map differs, then setSpatialMap(nullptr) on the copy', ['C15'], ''),
  'C16_s1': ('C16', 'setInitState(durations) no longer clears last_error_message_', 'invalid init followed by a valid init through the durations overload: verdict true, message still set', ['C16'], ''),
  'C16_s2': ('C16', 'fixed-order PPolyND bound rewritten in terms of the degree (accepts ORDER+1 coefficients)', 'fixed ORDER, exactly ORDER+1 coefficients with matching row count', ['C16'], ''),
- 'C17_s1': ('C17', 'QuadInvTimeMap::backward branches on tau > 1.0', '0 < tau <= 1: backward uses the other branch formula', ['C17', 'C07'], ''),
+ 'C17_s1': ('C17', 'QuadInvTimeMap::backward branches on tau > 1.0', '0 < tau <= 1: backward uses the other branch formula', ['C17'], ''),
  'C17_s2': ('C17', 'toTime clamps the tau <= 0 branch to >= 1e-9 with std::max', 'tau below about -44720: flat, not invertible, backward disagrees', ['C17'], ''),
  'C19_s1': ('C19', 'final evaluate(x) in checkGradients removed', 'inspecting the workspace spline afterwards (left at x_last - eps)', ['C19'], ''),
  'C19_s2': ('C19', 'verdict uses rel_error instead of error_norm', 'large gradients: a wrong component far above tol is accepted', ['C19'], ''),
